@@ -56,7 +56,29 @@ def setup_import_path() -> None:
     try:
         import structlog
 
-        structlog.configure(wrapper_class=structlog.make_filtering_bound_logger(50))
+        if os.environ.get("NAUYACA_VERIF_QUIETLOG") == "1":
+            structlog.configure(wrapper_class=structlog.make_filtering_bound_logger(50))
+        else:
+            # logging as a deployment has it (`--log-file`: every event rendered by nauyaca's own processor chain and printed to a
+            # stream that encodes strictly as UTF-8) - what is logged, and whether logging it can raise, is part of the code under
+            # test; the text goes nowhere
+            import io
+
+            from nauyaca.utils.logging import hash_ip_processor
+
+            class _Null(io.RawIOBase):
+                def writable(self):
+                    return True
+
+                def write(self, b):
+                    return len(b)
+
+            sink = io.TextIOWrapper(io.BufferedWriter(_Null()), encoding="utf-8", errors="strict", write_through=True)
+            structlog.configure(
+                processors=[structlog.contextvars.merge_contextvars, structlog.processors.add_log_level,
+                            structlog.processors.TimeStamper(fmt="%Y-%m-%d %H:%M:%S"), hash_ip_processor, structlog.dev.ConsoleRenderer(colors=False)],
+                wrapper_class=structlog.make_filtering_bound_logger(10), context_class=dict,
+                logger_factory=structlog.PrintLoggerFactory(file=sink), cache_logger_on_first_use=False)
     except Exception:
         pass
 
